@@ -1070,7 +1070,22 @@ impl<'a> GeneratorState<'a> {
                     }
                 }
             },
-            Expr::FunctionCall(expr, params) => self.generate_function_call(expr, params, pos),
+            Expr::FunctionCall(expr, params) => {
+                if high_byte || second_time {
+                    // The function has been called by the low byte pass: it is not called again
+                    if let Expr::Identifier(var, _) = &**expr {
+                        if let Some(f) = self.compiler_state.functions.get(var) {
+                            if high_byte && f.return_type.is_some() && !f.return_signed {
+                                return Ok(ExprType::Immediate(0));
+                            }
+                        }
+                    }
+                    return Err(self
+                        .compiler_state
+                        .syntax_error("Code too complex for the compiler", pos));
+                }
+                self.generate_function_call(expr, params, pos)
+            }
             Expr::MinusMinus(expr, false) => {
                 let expr_type = self.generate_expr(expr, pos, high_byte, high_byte)?;
                 if !second_time {
